@@ -56,6 +56,30 @@ theorem C14_urlencode_roundtrip (ps : List (Bytes × Bytes))
 example : parseQsl (urlencode [([97, 38], [61, 32, 43]), ([98], [35, 63])]) = [([97, 38], [61, 32, 43]), ([98], [35, 63])] := by
   decide
 
+/-- The codec models satisfy the specifications the driver evaluates on the implementation. -/
+theorem C14_model_meets_spec_codecs (s : Bytes) (h : IsBytes s) :
+    specB64 s (b64encode s) = true ∧ specEscape s (htmlEscape s) = true ∧ specQuote s (quotePlus s) = true := by
+  refine ⟨by simp [specB64, b64_roundtrip s h], by simp [specEscape, htmlEscape_inert, htmlUnescape_escape], ?_⟩
+  unfold specQuote
+  rw [quote_roundtrip s h, Bool.and_eq_true, List.all_eq_true]
+  refine ⟨by simp, ?_⟩
+  intro c hc
+  have := quotePlus_no_amp_eq s c hc
+  simp [this.1, this.2.1, this.2.2.1, this.2.2.2.1, this.2.2.2.2]
+
+theorem C14_model_meets_spec_urlencode (ps : List (Bytes × Bytes))
+    (h : ∀ kv ∈ ps, IsBytes kv.1 ∧ IsBytes kv.2 ∧ kv.2 ≠ []) : specUrlencode ps (urlencode ps) = true := by
+  unfold specUrlencode
+  rw [urlencode_roundtrip ps h]
+  have : ps.filter (fun kv => !kv.2.isEmpty) = ps := by
+    apply List.filter_eq_self.mpr
+    intro kv hkv
+    have := (h kv hkv).2.2
+    cases hk : kv.2 with
+    | nil => exact absurd hk this
+    | cons a t => rfl
+  simp [this]
+
 /-! ## 2. HTTP-POST form -/
 
 /-- **Inertness of the form.**  Whatever the message, destination, relay state and parameter name
@@ -88,32 +112,6 @@ theorem C14_form_defined (typ msg loc rs : Bytes) (h : typ = sSAMLRequest ∨ ty
     (formPost typ msg loc rs).isSome = true := by
   have : postPayload typ msg = some (b64encode msg) := by simp [postPayload, h]
   rw [formPost_eq typ msg loc rs _ this]; rfl
-
-/-- The controls a browser submits and the form's target, entity-decoded. -/
-def submitted (html : Bytes) : List (Bytes × Bytes) :=
-  (rawFields (tags html)).map (fun p => (htmlUnescape p.1, htmlUnescape p.2))
-def formActions (html : Bytes) : List Bytes := (rawActions (tags html)).map htmlUnescape
-
-theorem fields_of_form (typ p loc rs : Bytes) :
-    submitted (render (formVals typ p loc rs) (formTemplate (!rs.isEmpty))) = withRelay (typ, p) rs ∧
-    formActions (render (formVals typ p loc rs) (formTemplate (!rs.isEmpty))) = [loc] := by
-  have hv := formVals_no_quote typ p loc rs
-  have hok := formTemplate_holesOk (!rs.isEmpty)
-  unfold submitted formActions
-  rw [tags_render _ hv _ hok, rawFields_inst, rawActions_inst, formTemplate_actions]
-  constructor
-  · unfold withRelay
-    by_cases he : rs.isEmpty = true
-    · have hne : ¬ (10 : Nat) = 1 := by decide
-      have hne2 : ¬ (11 : Nat) = 1 := by decide
-      have hne3 : ¬ (11 : Nat) = 10 := by decide
-      simp [he, formTemplate_fields_norelay, instVal_hole, formVals, htmlUnescape_escape]
-    · have he' : rs.isEmpty = false := by simpa using he
-      simp only [he', Bool.not_false, formTemplate_fields_relay, List.map_cons, List.map_nil, instVal_hole,
-        instVal_lit, Bool.false_eq_true, if_false]
-      simp [formVals, htmlUnescape_escape]
-      decide
-  · simp [instVal_hole, formVals, htmlUnescape_escape]
 
 /-- **Round trip through the form.**  The receiver's HTML parser finds exactly the SAML control and
     (iff a relay state was given) the RelayState control, with the exact relay state; the action is
@@ -265,6 +263,13 @@ theorem C14_redirect_roundtrip (D : Deflate) (typ msg loc rs url : Bytes)
   unfold specRedirectDelivery
   rw [unravelRedirect_deflated D msg hmsg]
   simp
+
+/-- The model's URL satisfies the specification the driver evaluates on the implementation. -/
+theorem C14_model_meets_spec_redirect (D : Deflate) (typ msg loc rs url : Bytes)
+    (ht : typ = sSAMLRequest ∨ typ = sSAMLResponse) (hmsg : IsBytes msg) (hrs : IsBytes rs)
+    (hloc : locOk loc = true) (h : redirectUrl D.deflate true typ msg loc rs = some url) :
+    specRedirect D.inflate typ msg loc rs url = true :=
+  C14_redirect_roundtrip D typ msg loc rs url ht hmsg hrs hloc h
 
 example : locOk [104, 47, 63, 97, 61, 98] = true ∧ locOk [104, 47] = true ∧ locOk [104, 35] = false ∧ locOk [104, 63] = false := by
   decide
